@@ -622,6 +622,9 @@ fn models(tier: Tier) -> Vec<(String, Arc<M>, Vec<Plan>)> {
 
 pub fn run(tier: Tier) -> Report {
     let mut rep = Report::new();
+    // the controller is stepped by the housekeeping arm of the event loop: once per pass, after the pass has
+    // measured throughput; judged on what the real loop publishes
+    crate::realx::run_for(&mut rep, "C16", tier.is_quick());
     // which start states the scripted histories reach on this tree
     let w = W { tmpl: templates() };
     let mut reached = Vec::new();
@@ -672,6 +675,9 @@ pub fn run(tier: Tier) -> Report {
 }
 
 pub fn replay(v: &Value) -> Result<(), String> {
+    if let Some(r) = crate::realx::replay_for("C16", v) {
+        return r;
+    }
     let mut ms = Vec::new();
     for tier in [Tier::Quick, Tier::Thorough] {
         for (l, m, _) in models(tier) {
